@@ -39,6 +39,7 @@ def linear_shapes(tier, seed):
         shapes.append(mk(T, 3, [("odometry", (0, 1)), ("odometry", (1, 0)), ("landmark", (1, 2)), ("landmark", (2, 1)), ("odometry", (2, 0))], {2}, "opposite-parallel-free"))
         shapes.append(mk(T, 3, [("odometry", (0, 1)), ("odometry", (1, 2)), ("odometry", (2, 0))], {1}, "cycle3"))
         shapes.append(mk(T, 3, [("odometry", (0, 1)), ("landmark", (1, 2)), ("landmark", (0, 2))], {0}, "landmarks"))
+        shapes.append(mk(T, 3, [("odometry", (0, 1)), ("odometry", (2, 1)), ("landmark", (2, 0))], {0, 1}, "cycle3-two-fixed"))
         shapes.append(mk(T, 4, [("odometry", (0, 1)), ("odometry", (0, 2)), ("odometry", (3, 0))], {0, 3}, "star4"))
         if T == "R2" or tier == "thorough":
             shapes.append(mk(T, 4, [("odometry", (0, 1)), ("odometry", (1, 2)), ("odometry", (2, 3)), ("odometry", (3, 0)), ("landmark", (0, 2))], {2}, "cycle4-chord"))
@@ -55,6 +56,73 @@ def linear_shapes(tier, seed):
             fixed = set(rnd.sample(range(n), rnd.randint(1, 3)))
             shapes.append(mk(T, n, edges, fixed, "random%d-n%d" % (t, n)))
     return shapes
+
+
+def solve(k, shape, max_iter, history=None):
+    ghost = common.Ghost()
+    g, vs, es = graphs.build(k, shape, ghost)
+    dims = [POSE_C[T] for _, T, _ in shape["vertices"]]
+    fixed_pos = graphs.fixed_positions(shape)
+    earlier = 0
+    for marks, ffp in (history or ()):
+        # an earlier call on the same Graph object with OTHER vertices marked; the call under test must solve the
+        # problem for the marks in force when it is made
+        for p, v in enumerate(vs):
+            v.fixed = p in marks
+        with common.counting_spsolve(k, ghost):
+            g.optimize(max_iter=1, tol=k.pos("tol"), verbose=False, fix_first_pose=ffp)
+        earlier = ghost.s
+    if history:
+        for p, v in enumerate(vs):
+            v.fixed = p in fixed_pos
+            # ... and from a NEW arbitrary initial guess (the earlier call left a state that is optimal for any marks: gauge freedom)
+            v.pose = k.pose(shape["vertices"][p][1], "w%d" % p)
+    kwargs = {"verbose": False, "fix_first_pose": False}
+    if max_iter is not None:
+        kwargs["max_iter"] = max_iter
+        kwargs["tol"] = k.pos("tol")
+    with common.counting_spsolve(k, ghost):
+        ret = g.optimize(**kwargs)
+    k.check(ghost.s >= earlier + 1, "at least one update")
+    for p, v in enumerate(vs):
+        k.check(v.fixed == (p in fixed_pos), "the call leaves the marks as they were", (p, v.fixed))
+    # the state x1 reached after the first update is the state returned
+    H1, b1, offsets = gn.assemble(dims, graphs.spec_inputs(k, shape, vs, es))
+    free_idx = [offsets[p] + i for p in range(len(dims)) if p not in fixed_pos for i in range(dims[p])]
+    eqs = None
+    if k.mode == "sym":
+        eqs = list(k.st.memo.get("solver_eqs", []))
+    k.eq([b1[i] for i in free_idx], [0] * len(free_idx), "reduced gradient of the returned state is zero (normal equations solved)", using=eqs, atol=1e-7)
+    chi2 = g.calc_chi2()
+    k.eq(ret.final_chi2, chi2, "final_chi2 == calc_chi2() of the returned graph")
+    if max_iter is None or max_iter >= 2:
+        # exact arithmetic only: in floats chi2 at the optimum is reproduced up to rounding, and `chi2 <= chi2_prev` can
+        # fail by one ulp; the property asks for the minimiser and its chi2, not for the flag
+        if k.mode == "sym":
+            k.holds(ret.converged, "a run with >= 2 iterations available reports converged")
+        # (in floating point a perfectly consistent graph has chi2 ~ 1e-30 and its RELATIVE change is rounding noise,
+        #  so the iteration count is stated for exact arithmetic only)
+        k.check(k.mode == "num" or ret.num_iterations in (1, 2), "converged after at most two iterations", ret.num_iterations)
+    # quadratic expansion around the returned state: chi2(x1 + d) = chi2(x1) + 2 b.d + d^T H d
+    ds = [k.vec("q%d_" % p, dims[p]) for p in range(len(dims))]
+    saved = [v.pose for v in vs]
+    for p, v in enumerate(vs):
+        if p not in fixed_pos:
+            v.pose = v.pose + ds[p]
+    chi2_moved = sum_list([e.calc_chi2() for e in es])
+    for v, old in zip(vs, saved):
+        v.pose = old
+    lin = 0
+    quad = 0
+    dflat = {}
+    for p in range(len(dims)):
+        for i in range(dims[p]):
+            dflat[offsets[p] + i] = ds[p][i] if p not in fixed_pos else 0
+    for i in free_idx:
+        lin = lin + b1[i] * dflat[i]
+        for j in free_idx:
+            quad = quad + dflat[i] * H1[i][j] * dflat[j]
+    k.eq(chi2_moved, sum_list([e.calc_chi2() for e in es]) + 2 * lin + quad, "chi2(x1 + d) == chi2(x1) + 2 b(x1).d + d^T H d", rtol=1e-7)
 
 
 def obligations(r, tier, seed):
@@ -84,57 +152,25 @@ def obligations(r, tier, seed):
 
     for shape in linear_shapes(tier, seed):
         for max_iter in ((1, None) if tier == "quick" else (1, 2, 3, None)):
-            def solve(k, shape=shape, max_iter=max_iter):
-                ghost = common.Ghost()
-                g, vs, es = graphs.build(k, shape, ghost)
-                dims = [POSE_C[T] for _, T, _ in shape["vertices"]]
-                fixed_pos = graphs.fixed_positions(shape)
-                kwargs = {"verbose": False, "fix_first_pose": False}
-                if max_iter is not None:
-                    kwargs["max_iter"] = max_iter
-                    kwargs["tol"] = k.pos("tol")
-                with common.counting_spsolve(k, ghost):
-                    ret = g.optimize(**kwargs)
-                k.check(ghost.s >= 1, "at least one update")
-                # the state x1 reached after the first update is the state returned
-                H1, b1, offsets = gn.assemble(dims, graphs.spec_inputs(k, shape, vs, es))
-                free_idx = [offsets[p] + i for p in range(len(dims)) if p not in fixed_pos for i in range(dims[p])]
-                eqs = None
-                if k.mode == "sym":
-                    eqs = list(k.st.memo.get("solver_eqs", []))
-                k.eq([b1[i] for i in free_idx], [0] * len(free_idx), "reduced gradient of the returned state is zero (normal equations solved)", using=eqs, atol=1e-7)
-                chi2 = g.calc_chi2()
-                k.eq(ret.final_chi2, chi2, "final_chi2 == calc_chi2() of the returned graph")
-                if max_iter is None or max_iter >= 2:
-                    # exact arithmetic only: in floats chi2 at the optimum is reproduced up to rounding, and `chi2 <= chi2_prev` can
-                    # fail by one ulp; the property asks for the minimiser and its chi2, not for the flag
-                    if k.mode == "sym":
-                        k.holds(ret.converged, "a run with >= 2 iterations available reports converged")
-                    # (in floating point a perfectly consistent graph has chi2 ~ 1e-30 and its RELATIVE change is rounding noise,
-                    #  so the iteration count is stated for exact arithmetic only)
-                    k.check(k.mode == "num" or ret.num_iterations in (1, 2), "converged after at most two iterations", ret.num_iterations)
-                # quadratic expansion around the returned state: chi2(x1 + d) = chi2(x1) + 2 b.d + d^T H d
-                ds = [k.vec("q%d_" % p, dims[p]) for p in range(len(dims))]
-                saved = [v.pose for v in vs]
-                for p, v in enumerate(vs):
-                    if p not in fixed_pos:
-                        v.pose = v.pose + ds[p]
-                chi2_moved = sum_list([e.calc_chi2() for e in es])
-                for v, old in zip(vs, saved):
-                    v.pose = old
-                lin = 0
-                quad = 0
-                dflat = {}
-                for p in range(len(dims)):
-                    for i in range(dims[p]):
-                        dflat[offsets[p] + i] = ds[p][i] if p not in fixed_pos else 0
-                for i in free_idx:
-                    lin = lin + b1[i] * dflat[i]
-                    for j in free_idx:
-                        quad = quad + dflat[i] * H1[i][j] * dflat[j]
-                k.eq(chi2_moved, sum_list([e.calc_chi2() for e in es]) + 2 * lin + quad, "chi2(x1 + d) == chi2(x1) + 2 b(x1).d + d^T H d", rtol=1e-7)
-            obs.append(Ob("C04/global-optimum/%s/max_iter=%s" % (shape["name"], max_iter or "default"), solve, scope="shape-bounded",
+            def ob(k, shape=shape, max_iter=max_iter):
+                solve(k, shape, max_iter)
+            obs.append(Ob("C04/global-optimum/%s/max_iter=%s" % (shape["name"], max_iter or "default"), ob, scope="shape-bounded",
                           bound="shape " + shape["name"], funcs=FUNCS, solver="constrained-nonsingular", light=True))
+
+    # ---- histories: the same, as a later call on a Graph object that was optimized before with other marks
+    by_pattern = {}
+    for s_ in linear_shapes(tier, seed):
+        by_pattern.setdefault(s_["pattern"], []).append(s_)
+    hist = [("cycle3", "marks-move", [({0}, False)]), ("cycle3", "marks-grow-then-shrink", [({0}, False), ({0, 2}, False)]),
+            ("cycle3", "first-call-fixes-first-pose", [(set(), True)]), ("cycle3", "marks-shrink", [({0, 1}, False)]),
+            ("path3", "first-pose-mark-kept", [(set(), True)]), ("landmarks", "marks-grow-then-shrink", [(set(), True), ({0, 1}, False)]),
+            ("cycle3-two-fixed", "marks-grow", [({0}, False)]), ("cycle3-two-fixed", "marks-grow-from-first-pose", [(set(), True)])]
+    for pattern, hname, history in hist:
+        for shape in (by_pattern[pattern] if tier == "thorough" else by_pattern[pattern][:1]):
+            def solve_h(k, shape=shape, history=history):
+                solve(k, shape, None, history)
+            obs.append(Ob("C04/global-optimum-after-earlier-calls/%s/%s" % (shape["name"], hname), solve_h, scope="shape-bounded",
+                          bound="shape %s, %d earlier call(s)" % (shape["name"], len(history)), funcs=FUNCS, solver="constrained-nonsingular", light=True))
 
     def canary(k):
         r_ = k.r
